@@ -291,6 +291,43 @@ def check(ctx):
             check_equal(ctx, 'R3.mid_point', fsite(f), 'mid point of bin = min + (k + 1/2)*size', body, want)
         ctx.guard('R3', fsite(f), r3)
 
+    # ---------------------------------------------------------------- R6 binning parameters
+    dctors = [c for c in instances(p, 'hep::distribution_parameters::distribution_parameters')
+              if not c.is_implicit and not (len(c.params) == 1 and 'istream' in (c.params[0].type or ''))]
+    ctx.count('distribution_parameters constructors', len(dctors), 2)
+    for c in dctors:
+        ctx.analysed(c)
+
+        def rdp(c=c):
+            s, ex = summarise(p, c)
+            th_ = s.this
+            names = [q.name for q in c.params]
+            if len(names) == 7:
+                bx, by, x0, x1, y0, y1, nm = [sym(n_) for n_ in names]
+            elif len(names) == 4:
+                bx, x0, x1, nm = [sym(n_) for n_ in names]
+                by, y0, y1 = ONE, ZERO, ONE
+            else:
+                raise AnalysisBroken('unknown distribution_parameters constructor')
+            want = {'bins_x_': bx, 'bins_y_': by, 'x_min_': x0, 'y_min_': y0,
+                    'bin_size_x_': div(sub(x1, x0), bx), 'bin_size_y_': div(sub(y1, y0), by), 'name_': nm}
+            for fn_, w_ in want.items():
+                check_equal(ctx, 'R6.binning_parameters', fsite(c) + ':' + fn_, '%s of the binning [min, max) in '
+                            'bins equal steps' % fn_, fld(th_, fn_), w_)
+        ctx.guard('R6', fsite(c), rdp)
+    for getter, member in (('bins_x', 'bins_x_'), ('bins_y', 'bins_y_'), ('x_min', 'x_min_'), ('y_min', 'y_min_'),
+                           ('bin_size_x', 'bin_size_x_'), ('bin_size_y', 'bin_size_y_')):
+        gf = p.one('hep::distribution_parameters::' + getter)
+
+        def rgp(gf=gf, member=member, getter=getter):
+            s, ex = summarise(p, gf)
+            if s.ret == fld(th, member):
+                ctx.holds('R6.getters', fsite(gf), '%s() returns %s' % (getter, member))
+            else:
+                ctx.violation('R6.getters', fsite(gf), '%s() does not return %s' % (getter, member),
+                              {'returns': T.pretty(s.ret)[:200]})
+        ctx.guard('R6.getters', fsite(gf), rgp)
+
     # ---------------------------------------------------------------- R4 projector passes value*weight
     adds = [a for a in instances(p, 'hep::projector::add')]
     ctx.count('projector::add definitions', len(adds), 2)
